@@ -6,6 +6,8 @@ correspondence: kind-confusion matrix (every command x parameter x every raw kin
 oracles:        the exception type at the from_source()/run() boundary is SyntaxError or an MPilotError (never anything else), its str() works;
                 the command-line tool exits non-zero and prints the problem/solution message (and marks the line) for MPilot errors
 """
+import contextlib
+import io
 import os
 import subprocess
 import sys
@@ -206,6 +208,56 @@ def netcdf_faults(ctx, tmp):
                 ctx.fail("NetCDF model: expected %s, got %s" % (want, out), {"source": src})
 
 
+def strict_caller(ctx, tmp):
+    """a caller who has turned warnings into errors (python -W error, PYTHONWARNINGS=error, a test runner): loading and running still ends in success,
+    SyntaxError or an MPilot error - the same as without that setting; a warning is no declared error type"""
+    import warnings
+    from mpilot.program import Program
+    with open(os.path.join(tmp, "sc.csv"), "w") as f:
+        f.write("a,b,c\n1,0.5,-1\n2,0.25,0\n4,-0.5,1\n3,1,0\n")
+    texts = [
+        # EEMS 2.0 syntax, with the arguments that the conversion drops
+        'READ(InFileName = "sc.csv", InFieldName = a, OutFileName = "o1.csv")\nCVTTOFUZZY(InFieldName = a, NewFieldName = fa, TrueThreshold = 4, FalseThreshold = 1, OutFileName = "o1.csv")\n',
+        'READ(InFileName = "sc.csv", InFieldName = b)\nREAD(InFileName = "sc.csv", InFieldName = c)\nOR(InFieldNames = [b, c], NewFieldName = o, OutFileName = "o2.csv")\nNOT(InFieldName = o, NewFieldName = n)\n',
+        'READ(InFileName = "sc.csv", InFieldName = a)\nREAD(InFileName = "sc.csv", InFieldName = b)\nSUM(InFieldNames = [a, b], NewFieldName = s)\nWTDSUM(InFieldNames = [a, b], Weights = [1, 2.5], NewFieldName = w, OutFileName = "o3.csv")\n',
+        'READ(InFileName = "sc.csv", InFieldName = 2010)\n',
+        'READ(InFileName = "sc.csv", InFieldName = 2010)\nREAD(InFileName = "sc.csv", InFieldName = a)\nREAD(InFileName = "sc.csv", InFieldName = 7.5)\n',
+        'READ(InFileName = "sc.csv", InFieldName = a)\nMEANTOMID(InFieldName = a, NewFieldName = m, IgnoreZeros = False, FuzzyValues = [-1, -0.5, 0, 0.5, 1])\n',
+        # MPilot syntax: every family of command, strings with unknown escapes, metadata
+        'A = EEMSRead(InFileName = "sc.csv", InFieldName = a)\nB = EEMSRead(InFileName = "sc.csv", InFieldName = b, DataType = Float)\nS = Sum(InFieldNames = [A, B])\n'
+        'M = Mean(InFieldNames = [A, B, S])\nD = ADividedByB(A = A, B = B)\nW = WeightedMean(InFieldNames = [A, B], Weights = [1, 3])\nX = Multiply(InFieldNames = [A, B])\n',
+        'A = EEMSRead(InFileName = "sc.csv", InFieldName = a, Metadata = [Description: "C:\\path\\q", Color: red])\nN = Normalize(InFieldName = A)\nZ = NormalizeZScore(InFieldName = A)\n'
+        'F = CvtToFuzzy(InFieldName = A)\nG = CvtToFuzzyZScore(InFieldName = A, TrueThresholdZScore = 1, FalseThresholdZScore = -1)\nC = CvtToFuzzyCurve(InFieldName = A, RawValues = [1, 2, 4], FuzzyValues = [-1, 0.5, 1])\n',
+        'B = EEMSRead(InFileName = "sc.csv", InFieldName = b)\nC = EEMSRead(InFileName = "sc.csv", InFieldName = c)\nFB = CvtToFuzzy(InFieldName = B, TrueThreshold = 1, FalseThreshold = -1)\n'
+        'FC = CvtToFuzzy(InFieldName = C, TrueThreshold = 1, FalseThreshold = -1)\nO = FuzzyOr(InFieldNames = [FB, FC])\nX = FuzzyXOr(InFieldNames = [FB, FC])\nU = FuzzyUnion(InFieldNames = [FB, FC])\n'
+        'SU = FuzzySelectedUnion(InFieldNames = [FB, FC], TruestOrFalsest = Truest, NumberToConsider = 1)\nWU = FuzzyWeightedUnion(InFieldNames = [FB, FC], Weights = [2, 1])\nR = CvtFromFuzzy(InFieldName = O, TrueThreshold = 10, FalseThreshold = 0)\n'
+        'Out = EEMSWrite(OutFileName = "o4.csv", OutFieldNames = [O, X, U])\nP = PrintVars(InFieldNames = [WU])\n',
+        'A = EEMSRead(InFileName = "sc.csv", InFieldName = a)\nK = CvtToFuzzyCat(InFieldName = A, RawValues = [1, 2], FuzzyValues = [1, -1], DefaultFuzzyValue = 0)\nT = CvtToBinary(InFieldName = A, Threshold = 2, Direction = LowToHigh)\n'
+        'Q = NormalizeMeanToMid(InFieldName = A, IgnoreZeros = True, NormalValues = [0, 1, 2, 3, 4])\nY = NormalizeCurveZScore(InFieldName = A, ZScoreValues = [-1, 0, 1], NormalValues = [0, 1, 2])\n',
+        # faulty ones: the error classes must be the same too
+        'A = EEMSRead(InFileName = "missing.csv", InFieldName = a)\n', 'A = EEMSRead(InFileName = "sc.csv", InFieldName = zz)\nS = Sum(InFieldNames = [A])\n',
+        'A = EEMSRead(InFileName = "sc.csv", InFieldName = a)\nD = ADividedByB(A = A, B = A, Extra = 1)\n', 'A = Sum(InFieldNames = [])\n', 'A = B(', 'A = Sum(InFieldNames = "x\\q")\n',
+    ]
+    for src in texts:
+        outs = []
+        for strict in (False, True):
+            try:
+                with warnings.catch_warnings(), contextlib.redirect_stdout(io.StringIO()):
+                    warnings.simplefilter("error" if strict else "ignore")
+                    p = Program.from_source(src, working_dir=tmp)
+                    p.run()
+                out = "ok"
+            except BaseException as e:
+                out = progrun.classify(e)
+            outs.append(out)
+        ctx.case("strict-caller " + src, sample={"source": src[:200], "default": outs[0], "warnings_as_errors": outs[1]})
+        ctx.count("strict_caller_outcome:" + ":".join(outs[1].split(":")[:2]))
+        if not boundary_ok(outs[1]):
+            ctx.fail("with warnings turned into errors by the caller, %s escaped from from_source()/run()" % outs[1], {"source": src, "default_outcome": outs[0]})
+        elif outs[0].split(":")[:2] != outs[1].split(":")[:2]:
+            ctx.fail("with warnings turned into errors by the caller the model ends with %s instead of %s" % (outs[1], outs[0]), {"source": src})
+
+
 def run(ctx):
     ctx.check_proofs(["MPilot.Props.C13"])
     model = common.Model()
@@ -272,6 +324,7 @@ def run(ctx):
     deep_models(ctx)
     netcdf_faults(ctx, tmp)
     csv_faults(ctx, tmp)
+    strict_caller(ctx, tmp)
     cli(ctx, tmp, 12 if ctx.thorough else 9)
     return ctx.finish(
         rule="(a) every command x parameter x raw kinds (numbers, booleans, strings incl. non-ASCII/backslash/quote, names of results of every kind, "
